@@ -86,6 +86,11 @@ def runspec(world, flags):
                     st.append("untested")
             ex.steps[sc.eid] = st
             return False
+        if sc.eid in getattr(world, "hook_skipped", ()):
+            # its before_scenario hook excluded it: no step runs, the after hooks still do
+            ex.steps[sc.eid] = ["skipped"] * n
+            ex.failed[sc.eid] = False
+            return False
         running = True
         failed = False
         by_skip = False
